@@ -846,3 +846,108 @@ func neGroupsCase(ng NeGroups, res *Result) {
 		judge("foreign-under-generated-names-0-and-1", foreignDev("g1-DRC-0", "g1-DRC-1", rName+"-DRC-0", rName+"-DRC-1", "A1-DRC-0"), false)
 	}
 }
+
+// ---------------------------------------------------------------- IOS: the device already holds the merged target
+//
+// No IOS executor here: the device text is written from the script for the empty device (ACL blocks verbatim, the
+// `ip access-group` lines put under their interfaces).  Scenario `again` only: the second compare must be empty.
+// A device with the older target (without raw / IPv6) is compared too; without executor only this is judged:
+// drc must accept the pair, and print nothing exactly when the two merged views (stream 1, judged there) are equal.
+func iosDeviceFrom(script string) (string, bool) {
+	acls := map[string][]string{}
+	var order []string
+	bind := map[int][]string{}
+	cur, intf := "", -1
+	for _, l := range strings.Split(script, "\n") {
+		w := strings.Fields(l)
+		switch {
+		case len(w) == 0:
+		case len(w) == 4 && w[0] == "ip" && w[1] == "access-list":
+			cur, intf = w[3], -1
+			if _, ok := acls[cur]; !ok {
+				order = append(order, cur)
+				acls[cur] = []string{}
+			}
+		case l == "exit":
+			cur = ""
+		case len(w) == 2 && w[0] == "interface":
+			cur = ""
+			intf, _ = strconv.Atoi(strings.TrimPrefix(w[1], "Ethernet"))
+		case cur != "":
+			acls[cur] = append(acls[cur], strings.TrimSpace(l))
+		case intf >= 0 && len(w) == 4 && w[1] == "access-group":
+			bind[intf] = append(bind[intf], strings.TrimSpace(l))
+		case intf >= 0 && len(w) >= 2 && w[0] == "ip" && w[1] == "address":
+		default:
+			return "", false
+		}
+	}
+	var sb strings.Builder
+	for _, n := range order {
+		sb.WriteString("ip access-list extended " + n + "\n")
+		for _, b := range acls[n] {
+			sb.WriteString(" " + b + "\n")
+		}
+	}
+	for i := 0; i < nIntf+1; i++ {
+		fmt.Fprintf(&sb, "interface Ethernet%d\n ip address 10.0.%d.1 255.255.255.0\n", i, i)
+		for _, b := range bind[i] {
+			sb.WriteString(" " + b + "\n")
+		}
+	}
+	return sb.String(), true
+}
+
+func runNonEmptyIOS(c Case, res *Result) {
+	files := c.files()
+	fail := func(scn, pred, what string) {
+		sig, name := sigOf(pred, map[string]any{"backend": c.Dev, "stream": "nonempty", "scenario": scn})
+		res.Count("oracle:ne:" + name)
+		res.Fail(sig, "[non-empty device, scenario "+scn+"] "+what, c)
+	}
+	out, errOut, pan := drcOn(files["dev"], files)
+	if pan != "" || classifyErr(errOut) != "" {
+		return
+	}
+	dev, ok := iosDeviceFrom(out)
+	if !ok {
+		res.Count("ne:ios-script-not-understood")
+		return
+	}
+	res.Count("ne:scenario:ios-again")
+	out2, err2, pan2 := drcOn(dev, files)
+	switch {
+	case pan2 != "":
+		fail("again", "panic_on_nonempty_device", "panic: "+pan2)
+	case classifyErr(err2) != "":
+		fail("again", "valid_pair_rejected", "device holds the merged target, drc ends with: "+strings.TrimSpace(err2))
+	case len(scriptLines(out2)) > 0:
+		fail("again", "second_compare_not_empty", "device holds the merged target, compare prints: "+strings.Join(scriptLines(out2), " | "))
+	default:
+		res.Count("ne:second-compare-empty")
+	}
+	if c.Raw.Present && (c.V4.Present || c.V6.Present) {
+		oldFiles := withoutFile(files, "spoc.raw")
+		if o1, e1, p1 := drcOn(files["dev"], oldFiles); p1 == "" && classifyErr(e1) == "" {
+			if devOld, ok := iosDeviceFrom(o1); ok {
+				res.Count("ne:scenario:ios-older-without-raw")
+				o2, e2, p2 := drcOn(devOld, files)
+				c2 := c
+				c2.Raw = File{}
+				same := readOutcome("ios", o1, e1, "").canon() == readOutcome("ios", out, errOut, "").canon()
+				switch {
+				case p2 != "":
+					fail("older-without-raw", "panic_on_nonempty_device", "panic: "+p2)
+				case classifyErr(e2) != "":
+					fail("older-without-raw", "valid_pair_rejected", "device holds the target without its raw file, drc ends with: "+strings.TrimSpace(e2))
+				case same && len(scriptLines(o2)) > 0:
+					fail("older-without-raw", "second_compare_not_empty", "raw file adds nothing to the view, compare prints: "+strings.Join(scriptLines(o2), " | "))
+				case !same && len(scriptLines(o2)) == 0:
+					fail("older-without-raw", "difference_not_seen", "the raw file changes the merged view, the compare with a device that has the view without it prints nothing")
+				default:
+					res.Count("ne:ios-older-judged")
+				}
+			}
+		}
+	}
+}
